@@ -6,7 +6,7 @@ from copy import deepcopy
 from typing import TYPE_CHECKING, Any, Generic, Self, TypeVar, overload
 
 from quansino.moves.composite import CompositeMove
-from quansino.protocols import Integrator, Operation
+from quansino.protocols import Integrator, Operation, Serializable
 from quansino.registry import get_typed_class
 
 if TYPE_CHECKING:
@@ -167,8 +167,8 @@ class BaseMove(Generic[OperationType, ContextType]):
         if "operation" in kwargs:
             operation_data = kwargs["operation"]
 
-            operation_class: type[Operation] = get_typed_class(
-                operation_data["name"], Operation
+            operation_class: type[Operation | Integrator] = get_typed_class(
+                operation_data["name"], Serializable
             )
 
             kwargs["operation"] = operation_class.from_dict(operation_data)
